@@ -1,4 +1,4 @@
-import MlModel.Model.Signals
+import MlModel.Lemmas.Signals
 import Mathlib.Tactic.Linarith
 import Mathlib.Tactic.Ring
 import Mathlib.Algebra.Order.Field.Basic
@@ -37,21 +37,6 @@ theorem C07_classification_signal_flip_bool (b m : Bool) :
   cases b <;> cases m <;> decide
 
 /-! ## top-k accuracy -/
-
-theorem countP_partition (xs : List Rat) (s : Rat) :
-    xs.countP (· < s) + xs.countP (s < ·) + xs.countP (· == s) = xs.length := by
-  induction xs with
-  | nil => rfl
-  | cons x xs ih =>
-    simp only [List.countP_cons, List.length_cons]
-    rcases lt_trichotomy x s with h | h | h
-    · have h2 : ¬ s < x := not_lt.mpr (le_of_lt h)
-      have h3 : (x == s) = false := by simpa using ne_of_lt h
-      simp [h, h2, h3]; omega
-    · subst h; simp; omega
-    · have h2 : ¬ x < s := not_lt.mpr (le_of_lt h)
-      have h3 : (x == s) = false := by simpa using (ne_of_lt h).symm
-      simp [h, h2, h3]; omega
 
 /-- **top-k accuracy**: for pairwise distinct (weighted) scores, `k ≥ 1` and a valid label, the signal
 is true exactly when fewer than `k` classes score strictly higher than the label's class -/
